@@ -116,15 +116,14 @@ BARE = [(MQSTAR, 0, None, True), (MQPLUS, 1, None, True), (MQOPT, 0, 1, True), (
         (MQSTAR(...), 0, None, True), (MQOPT(...), 0, 1, True), (MQPLUS.NG(...), 1, None, False)]
 
 
-def _mk_bare(n):
-    def k1b(x0: int, x1: int, x2: int, x3: int, f0: int, f1: int, mid: int):
+def _mk_bare(n, md):
+    def k1b(x0: int, x1: int, x2: int, x3: int, f0: int, f1: int):
         xs = [x0, x1, x2, x3][:n]
         for x in [x0, x1, x2, x3][n:]:
             assume(x == 97)
         seq = [_sym_letter(x) for x in xs]
-        assume(0 <= f0 < len(BARE) and 0 <= f1 < len(BARE) and 0 <= mid <= 2)
+        assume(0 <= f0 < len(BARE) and 0 <= f1 < len(BARE))
         a, b = BARE[pc.pin(f0, 0, len(BARE) - 1)], BARE[pc.pin(f1, 0, len(BARE) - 1)]
-        md = pc.pin(mid, 0, 2)
         # pattern: <bare0> [M(x='b') | M(x=...)] <bare1>   ==  regex  .{q0} (b|.) .{q1}
         pats = [a[0]] + ([] if md == 0 else [M(x='b')] if md == 1 else [M(x=...)]) + [b[0]]
         items = [(None, a[1], a[2], a[3])] + ([] if md == 0 else [('b', 1, 1, True)] if md == 1 else [(None, 1, 1, True)]) + [(None, b[1], b[2], b[3])]
@@ -244,9 +243,10 @@ for _sk in SKELETONS:
                               f'greedy bits {_g:b}', tier='quick' if _q else 'thorough', budget=900, per_path=60,
                               out='targets longer than 4; more than 2 quantified items; nested sub-list quantifiers; back-references'))
 for _n in (0, 1, 2, 3, 4):
-    CELLS.append(Cell(f'K1b.bare[n={_n}]', _mk_bare(_n), 'K', FNM[:3],
-                      f'<Q0> [nothing | M(x="b") | M(x=...)] <Q1> with Q in the 9 bare-class / instance forms of MQSTAR, MQPLUS, MQOPT (+ .NG); target = {_n} symbolic letters',
-                      tier='quick' if _n <= 3 else 'thorough', budget=900, per_path=60))
+    for _md in (0, 1, 2):
+        CELLS.append(Cell(f'K1b.bare[n={_n},mid={("none", "b", "any")[_md]}]', _mk_bare(_n, _md), 'K', FNM[:3],
+                          f'<Q0> {("", "M(x=b)", "M(x=...)")[_md]} <Q1> with Q0, Q1 symbolic over the 9 bare-class / instance forms of MQSTAR, MQPLUS, MQOPT (+ .NG); target = {_n} symbolic letters',
+                          tier='quick' if _n <= 2 or (_n == 3 and _md == 1) else 'thorough', budget=900, per_path=60))
 CELLS.append(Cell('K2.leaf', k2_leaf, 'K', FNM[3:], 'Call(Name(x), [Constant(i)]) vs pattern with Name(y), Constant(j): x, y symbolic letters, i, j symbolic ints in -3..3; int vs bool/str/float constants',
                   budget=600))
 CELLS.append(Cell('P1.search_vs_match', p1_search, 'P', ['fst.match.search', 'fst.match._leaf_asts_default', 'fst.fst_traverse.walk'],
